@@ -16,10 +16,15 @@ FN_TOTAL = ["abs", "ceil", "floor", "fract", "sign", "divmod", "sqrt", "log", "e
 EXCLUDED = {
     "tan asin acos atan r2p": "call libm functions (tanf, asinf, acosf, atanf, hypotf/atan2f) that Kani 0.68 does not model (reported as unsupported foreign function)",
     "head tail swap select if in eq ne": "clone / compare ExprValue lists (String-carrying enum): CBMC did not finish within 300 s per harness",
-    "random randint": "rand's rejection sampling loop has no static bound",
+    "(random randint)": "verified with the generator state concrete (seed 0, first draw): the sampler of rand 0.9 is loop-free; other generator states are not covered",
     "split splitw trim join _": "String machinery",
 }
 ALWAYS = ["clamp", "divmod", "mean", "min"]
+# harnesses of their own shape (not the 0..=3 symbolic-argument driver): harness -> (built-in, number of symbolic f32 arguments, concrete arguments appended)
+FN_TOTAL2 = {
+    "k_fn_total2_randint": ("randint", 2, []),
+    "k_fn_total2_random": ("random", 0, []),
+}
 KERNELS = {
     "C08": ["k_round_outward", "k_expand", "k_combine_lub", "k_intersect_glb", "k_xfrm_apply"],
     "C09": ["k_locspec_named", "k_locspec_edges", "k_calc_offset_abs", "k_calc_offset_ratio", "k_scalarspec"],
@@ -158,7 +163,7 @@ def run_c01(tier, seed):
     names = list(FN_TOTAL)
     # both tiers run every claimed harness (a defect in an unsampled built-in would otherwise be missed);
     # the thorough tier only allows more time per harness
-    harnesses = ["k_fn_total_" + n for n in names]
+    harnesses = ["k_fn_total_" + n for n in names] + list(FN_TOTAL2)
     scratch = prepare_scratch()
     violations, known_hits, replays = [], [], 0
     try:
@@ -169,17 +174,24 @@ def run_c01(tier, seed):
         failed = [h for h, r in results.items() if r["status"] == "failed"]
         for h in failed:
             tests, raw = concrete_values(scratch, h)
-            fn = h[len("k_fn_total_"):]
+            fn = FN_TOTAL2[h][0] if h in FN_TOTAL2 else h[len("k_fn_total_"):]
             confirmed = False
             doc, status, vals = "", "no concrete test produced", []
             for vecs in tests:
-                # harness draws: n (usize), then n f32 values
                 vals = []
-                n = int.from_bytes(bytes(vecs[0]), "little") if len(vecs[0]) == 8 else 0
-                for v in vecs[1:1 + n]:
-                    if len(v) == 4:
-                        vals.append(int.from_bytes(bytes(v), "little"))
-                args = ", ".join(f32_expr(b) for b in vals)
+                if h in FN_TOTAL2:
+                    # harness draws: exactly the symbolic f32 arguments, in order
+                    for v in vecs[:FN_TOTAL2[h][1]]:
+                        if len(v) == 4:
+                            vals.append(int.from_bytes(bytes(v), "little"))
+                    args = ", ".join([f32_expr(b) for b in vals] + [str(c) for c in FN_TOTAL2[h][2]])
+                else:
+                    # harness draws: n (usize), then n f32 values
+                    n = int.from_bytes(bytes(vecs[0]), "little") if len(vecs[0]) == 8 else 0
+                    for v in vecs[1:1 + n]:
+                        if len(v) == 4:
+                            vals.append(int.from_bytes(bytes(v), "little"))
+                    args = ", ".join(f32_expr(b) for b in vals)
                 doc = f'<svg><text xy="0" text="{{{{{fn}({args})}}}}"/></svg>'
                 r = nat.run([doc], ())
                 replays += 1
@@ -187,6 +199,38 @@ def run_c01(tier, seed):
                 if status in ("panic", "abort"):
                     confirmed = True
                     break
+            if not confirmed and vals:
+                # CBMC over-approximates some float operations (notably `%`): the solver has decided that a failing input exists,
+                # but the concrete values of its trace need not be one.  Look for a concrete witness natively among the special
+                # values of each argument (and neighbours of the trace values); report only what reproduces.
+                import itertools, struct
+                def f32(bits):
+                    return struct.unpack("<f", struct.pack("<I", bits & 0xFFFFFFFF))[0]
+                special = ["0", "1", "(0 - 1)", "0.5", "(0 - 0.5)", "2", "(0 - 2)", "90", "(0 - 90)", "180", "(0 - 180)", "270", "(0 - 270)", "360", "(0 - 360)", "450", "(0 - 450)",
+                           "16777216", "(0 - 16777216)", "2147483648", "(0 - 2147483648)", "4294967296", "1e38", "(0 - 1e38)", "1e-38", "(1 / 0)", "(0 - 1 / 0)", "(0 / 0)"]
+                per_arg = []
+                for b in vals:
+                    v = f32(b)
+                    near = []
+                    if v == v and abs(v) < 1e30:
+                        for q in (1, 45, 90, 360):
+                            k = round(v / q) * q
+                            near += [f32_expr(struct.unpack("<I", struct.pack("<f", float(k)))[0])]
+                    per_arg.append(list(dict.fromkeys([f32_expr(b)] + near + special)))
+                tried = 0
+                for combo in itertools.product(*per_arg):
+                    if tried >= 30000:
+                        break
+                    tried += 1
+                    args = ", ".join(list(combo) + [str(c) for c in FN_TOTAL2[h][2]] if h in FN_TOTAL2 else combo)
+                    doc = f'<svg><text xy="0" text="{{{{{fn}({args})}}}}"/></svg>'
+                    r = nat.run([doc], ())
+                    replays += 1
+                    status = r.docs[0]["status"]
+                    if status in ("panic", "abort"):
+                        confirmed = True
+                        results[h]["witness_search"] = f"trace values did not reproduce; witness found natively after {tried} candidate(s)"
+                        break
             if confirmed:
                 from . import build as B2
                 m2 = B2.ensure_built(None, want_release=True, verbose=False)
@@ -229,7 +273,7 @@ def run_c01(tier, seed):
     wall = time.time() - t0
     cov = dict(
         states=max(1, len(ok)), transitions=max(1, sum(1 for _ in results)), traces_validated_against_impl=replays,
-        samples=[dict(harness=h, real_function="functions::eval_function(Function::%s, ..)" % h[len("k_fn_total_"):], inputs="0..=3 arguments, each any f32 bit pattern (kani::any)", verdict=results[h]["status"],
+        samples=[dict(harness=h, real_function="functions::eval_function(Function::%s, ..)" % (FN_TOTAL2[h][0] if h in FN_TOTAL2 else h[len("k_fn_total_"):]), inputs="0..=3 arguments, each any f32 bit pattern (kani::any)", verdict=results[h]["status"],
                       cbmc_time_s=results[h]["time"], stubs=results[h]["stubs"]) for h in list(results)[:6]],
         obligations=len(results), discharged=len(ok), harness_results={h: dict(status=r["status"], time_s=r["time"], failed_checks=r["failed"][:3], cover=r.get("cover")) for h, r in results.items()},
         solver="CBMC 6.11.0 (CaDiCaL) via Kani 0.68.0, default unwinding assertions on, #[kani::unwind(6)]",
